@@ -943,6 +943,18 @@ func (x *Exec) arith(st *State, op token.Token, a, b *Term, t types.Type, what s
 				return c.Mod(b, c.IntBig(new(big.Int).Lsh(big.NewInt(1), uint(k))))
 			}
 		}
+		// a & (2^w - 2^k)  ==  a - a mod 2^k   (clearing the low k bits of an unsigned value)
+		if !signed {
+			for _, pair := range [][2]*Term{{a, b}, {b, a}} {
+				if pair[1].kind == kIntLit {
+					full := new(big.Int).Lsh(big.NewInt(1), uint(w))
+					low := new(big.Int).Sub(full, pair[1].val) // 2^k ?
+					if low.Sign() > 0 && new(big.Int).And(low, new(big.Int).Sub(low, big.NewInt(1))).Sign() == 0 {
+						return c.Sub(pair[0], c.Mod(pair[0], c.IntBig(low)))
+					}
+				}
+			}
+		}
 		x.abstract["bit operation & in math mode (uninterpreted)"] = true
 		return x.uninterp(fmt.Sprintf("bitand%d", w), SInt, a, b)
 	case token.AND_NOT:
